@@ -55,7 +55,12 @@ func (m *Mixin) renderCall(p *renderState, wr *bytes.Buffer) error {
 
 	attributes := `__op__map_params `
 	for _, a := range m.Attrs {
-		attributes += ` "` + a.Name + `" ` + p.JsExpr(a.Val, false, false)
+		val := p.JsExpr(a.Val, false, false)
+		if val == "" {
+			// the null literal compiles to nothing
+			val = "null"
+		}
+		attributes += ` "` + a.Name + `" ` + val
 	}
 	var subblock = new(bytes.Buffer)
 	if err := m.Block.Render(p, subblock); err != nil {
